@@ -57,6 +57,8 @@ def check_case(case, ctx):
         ctx.label("R-with-inf/huge/denormal-samples")
     if plot.payload.get("k_inf"):
         ctx.label("K-with-infinite-columns")
+    if case["spec"]["mesh"].get("slab"):
+        ctx.label("refined-slab-across-the-plane")
     if plot.payload.get("amp", 1.0) != 1.0:
         ctx.label(f"amplitude:{plot.payload['amp']:g}")
     names = plot.fields
@@ -99,12 +101,15 @@ def check_case(case, ctx):
         ctx.label("history:reused-object-" + case["hist"])
         hserial = case["hist"] == "serial"
         p2, cls2 = slicegen.resolve_position(plot, cn, case["pos2"], L)
-        if cls2 == "outside":
-            p2 = None
+        if cls2 == "outside" or p2 is None:
+            # (a call without a position re-uses the object's previous one, whatever normal it belonged to: explicit here)
+            p2 = (lo + hi) / 2
         pools.set_schedule(None)
         try:
             with poisoned_empty(POISONS[0]):
                 m = qcall(Mandoline, "src", fields=list(req), limit_level=limit, serial=hserial, verbose=0)
+                # (first along another normal: an explicit normal, 0 included, must not fall back to the previous one)
+                qcall(m.slice, normal=(cn + 1 + case["pos"]["index"] % 2) % 3, pos=None, fformat="return")
                 qcall(m.slice, normal=cn, pos=p2, fformat="return")
                 first = qcall(m.slice, normal=cn, pos=p, fformat="return")
                 # the caller owns what it was given: editing the returned arrays in place must not change later results
